@@ -127,6 +127,7 @@ typedef struct { const char *sigp; uint64_t checks; } rctx;
 static bool run_list(wcall *calls, int n, const vbuf *full, size_t cap, int form, binson_writer *w, uint8_t *given_dst, const char *sigp, size_t pre_used)
 {
     (void)pre_used;
+    if (VA.verbose >= 2) fprintf(stderr, "  run at capacity %zu (%s destination)\n", cap, (form == 1 || cap == 0) ? "canary-tailed" : "exact-size");
     uint8_t *dst; bool canary = (form == 1 || cap == 0);
     /* canary form: the backing store reaches past the whole encoding, so that binson_writer_verify on an overflowed writer
      * (which parses `counter` bytes) stays inside memory the harness owns; everything past `cap` must keep its pattern */
@@ -220,6 +221,7 @@ static void case_lists(vrng *r, bool c09)
     for (int i = 0; i < n; i++) { random_call(r, &calls[i], c09, big); call_model(&calls[i], &full); }
     if (vrn(r, 12) == 0) { wcall *l = &calls[n - 1]; call_free(l); full.n = l->enc_off; memset(l, 0, sizeof *l); l->op = vrn(r, 2) ? W_RAW_HUGE : W_BYTES_HUGE; l->i = (int64_t)vrn(r, 100000); call_model(l, &full); vw_count("lists_ending_with_impossible_length", 1); }
     size_t T = full.n;
+    if (VA.verbose) { vbuf d; memset(&d, 0, sizeof d); describe_calls(calls, n, &d); fprintf(stderr, "case: %d write calls, exact encoded size %zu: %s\n", n, T, vb_cstr(&d)); vb_free(&d); }
     binson_writer *w = (binson_writer *)malloc(sizeof(binson_writer));
     uint64_t runs = 0;
     bool ok = true;
